@@ -38,6 +38,24 @@ def _pending_var(fn) -> str:
     raise AnalysisError('executor_pmap: no `for ... in as_completed(<pending>)` loop found')
 
 
+def _next_draw(fn, call):
+    """(variable, the `if variable is not SENTINEL:` statement) for `variable = next(it, SENTINEL)` followed by that guard; else None"""
+    sentinel = norm(call.args[1])
+    for blk in ast.walk(fn.node):
+        body = getattr(blk, 'body', None)
+        for fld in ('body', 'orelse', 'finalbody'):
+            stmts = getattr(blk, fld, None)
+            if not isinstance(stmts, list):
+                continue
+            for i, st in enumerate(stmts):
+                if isinstance(st, ast.Assign) and st.value is call and isinstance(st.targets[0], ast.Name) and i + 1 < len(stmts):
+                    var = st.targets[0].id
+                    nxt = stmts[i + 1]
+                    if isinstance(nxt, ast.If) and norm(nxt.test) in (f'{var} is not {sentinel}', f'{var} != {sentinel}'):
+                        return var, nxt
+    return None
+
+
 def r1_draw_submit(a, tier):
     rep = RuleReport(
         'C18.R1',
@@ -98,6 +116,20 @@ def r1_draw_submit(a, tier):
         elif isinstance(n, (ast.ListComp, ast.SetComp, ast.GeneratorExp)) and any(draws(g.iter) for g in n.generators):
             sites += 1
             rep.fail(fn.qualname, f'draw:{norm(n)[:40]}', f'`{norm(n)[:80]}` consumes the task iterator outside the submit protocol', f'{fn.module.relpath}:{n.lineno}')
+        elif isinstance(n, ast.Call) and dotted(n.func) == 'next' and len(n.args) == 2 and draws(n.args[0]) and _next_draw(fn, n) is not None:
+            # x = next(it, SENTINEL); if x is not SENTINEL: submit + register   (one-task draw)
+            sites += 1
+            var, guard = _next_draw(fn, n)
+            def is_submit2(e, var=var) -> bool:
+                e = through_locals(fn, e)
+                return isinstance(e, ast.Call) and dotted(e.func).endswith('.submit') and len(e.args) >= 2 and norm(e.args[1]) == var
+            sub = [c for c in ast.walk(guard) if isinstance(c, ast.Call) and is_submit2(c)]
+            reg = any(isinstance(c, ast.Assign) and isinstance(c.targets[0], ast.Subscript) and norm(c.targets[0].value) == pending
+                      and is_submit2(c.targets[0].slice) for x in guard.body for c in ast.walk(x))
+            rep.add({'draw_site': f'{var} = {norm(n)}', 'submitted': bool(sub), 'registered_in_pending_map': reg})
+            if not (sub and reg):
+                rep.fail(fn.qualname, f'draw:{norm(n)}', f'the task drawn by `{var} = {norm(n)}` is not both submitted and registered in {pending} when it is '
+                         f'not the sentinel: that payload never produces a result', f'{fn.module.relpath}:{n.lineno}')
         elif isinstance(n, ast.Call) and dotted(n.func) in ('next', 'list', 'tuple') and n.args and draws(n.args[0]):
             sites += 1
             rep.fail(fn.qualname, f'draw:{norm(n)}', f'`{norm(n)}` takes tasks from the iterator without submitting them', f'{fn.module.relpath}:{n.lineno}')
@@ -116,6 +148,9 @@ def r1_draw_submit(a, tier):
     loops = [n for n in walk_no_defs(fn.node) if isinstance(n, ast.For) and isinstance(n.iter, ast.Call) and dotted(n.iter.func) == 'as_completed']
     for loop in loops:
         refills = [n for n in ast.walk(loop) if isinstance(n, ast.For) and n is not loop and draws(n.iter)]
+        next_refills = [_next_draw(fn, c) for c in ast.walk(loop) if isinstance(c, ast.Call) and dotted(c.func) == 'next' and len(c.args) == 2
+                        and draws(c.args[0]) and _next_draw(fn, c) is not None]
+        refills += [g_ for _v, g_ in next_refills]
         rep.add({'completion_loop_refills': len(refills)})
         if not refills:
             rep.fail(fn.qualname, 'refill-missing', 'the completion loop never draws the next task: payloads beyond the first window are never submitted',
@@ -140,9 +175,10 @@ def r1_draw_submit(a, tier):
                 is_stop = isinstance(t, ast.Call) and isinstance(t.func, ast.Attribute) and t.func.attr == 'is_set'
                 if not (is_stop and neg):
                     bad.append(norm(test) + ('' if in_body else ' (else branch)'))
-            rep.add({'refill': f'for {norm(r.target)} in {norm(r.iter)}', 'runs_unless_stopped': not bad, 'other_conditions': bad})
+            rtxt = f'for {norm(r.target)} in {norm(r.iter)}' if isinstance(r, ast.For) else f'if {norm(r.test)}'
+            rep.add({'refill': rtxt, 'runs_unless_stopped': not bad, 'other_conditions': bad})
             if bad:
-                rep.fail(fn.qualname, 'refill-condition', f'the refill `for {norm(r.target)} in {norm(r.iter)}` runs only under {bad}: when the run is not '
+                rep.fail(fn.qualname, 'refill-condition', f'the refill `{rtxt}` runs only under {bad}: when the run is not '
                          f'stopped the next task is not drawn and the payloads beyond the first window never produce a result', f'{fn.module.relpath}:{r.lineno}')
     rep.add({'draw_sites': sites})
     return rep
